@@ -239,3 +239,21 @@ PROPS["C08"] = {
     "assumptions": ["Apply on an unexported-variable mocker and Set(nil) for interface-typed variables are not generated/judged (DESIGN 5.3)"],
     "floors": [("histories", "restore-after->=2-sets", 100), ("histories", "cancel-without-set", 50), ("histories", "by-name", 100)],
 }
+
+PROPS["C06"] = {
+    "prepare": [prep_corpus],
+    "units": [
+        {"name": "methods", "pkg": "./zverif/c06", "run": "^TestVerifC06", "timeout": {"quick": 400, "thorough": 2400},
+         "shards": {"quick": 1, "thorough": 16}},
+    ],
+    "rule": "methods: rapid histories (mock by callback, stub by Return, call, call-every-method-of-the-type-and-its-neighbour-on-every-instance, reset) over "
+            "12 generated struct types (8 exported, 4 unexported; 4..7 methods each with pointer/value receivers, exported/unexported names and the prefix "
+            "family Get/GetX/GetXY/get), 5 instances per type (heap, static, embedded), mocked through Struct.Method, Struct.ExportMethod(.As) and "
+            "Pkg.ExportStruct.Method(.As). Oracle: model of which (type, method) is mocked; the callback's first argument is the very instance (pointer "
+            "identity / bit-exact copy), every other method of every type runs its original body exactly once per call. generics: Return-stubs on "
+            "methods/functions of G[T] for T in int,int64,string,*GA,*GB,GS; instantiations of a different GC shape and other methods must be unaffected. "
+            "Non-trivial: a history with a call on a mocked method or a call-all sweep while something is mocked; distinct by the op/tag sequence.",
+    "assumptions": ["Struct(x) is given the receiver kind the method declares (README)", "callbacks on generic methods/functions are an open known finding: only Return-stubs are judged there"],
+    "floors": [("methods", "call/mocked/value-receiver", 50), ("methods", "call/mocked/unexported-method", 50), ("methods", "call/mocked/unexported-type", 30),
+               ("methods", "callall", 200)],
+}
